@@ -72,6 +72,7 @@ type scheduler struct {
 	gc       *schedActor
 	parking  bool // hooks park goroutines (off during setup/finish)
 	panicked string
+	gcAtScan bool // the collector has been seen parked at gc.scanned (logged once per pass)
 }
 
 func curGid() uint64 {
@@ -293,6 +294,24 @@ func (s *scheduler) settle(a *schedActor) []map[string]any {
 	return moved
 }
 
+// noteGCScan logs (once per collection pass) that the collector finished its lock-free scan: from now on it
+// may lock the tables in which it found something to collect.
+func (s *scheduler) noteGCScan() {
+	if s.gc == nil {
+		return
+	}
+	s.mu.Lock()
+	// in the middle of a pass: parked at any gate but gc.committed, or blocked on a mutex
+	midpass := (s.gc.state == aParked && s.gc.gate != "gc.committed") || s.gc.state == aBlocked
+	if midpass && !s.gcAtScan {
+		s.gcAtScan = true
+		s.log.Emit(Ev{"op": "gcscan"})
+	} else if !midpass {
+		s.gcAtScan = false
+	}
+	s.mu.Unlock()
+}
+
 func (s *scheduler) allNames() []string {
 	out := append([]string{}, s.order...)
 	if s.gc != nil {
@@ -487,6 +506,7 @@ func (s *scheduler) step(name string) bool {
 		return false
 	}
 	moved := s.settle(a)
+	s.noteGCScan()
 	probe, ok := s.probe()
 	to := s.where(a)
 	closed, life := s.closedList(), s.lifecycles()
@@ -524,6 +544,21 @@ func runSchedScript(t *testing.T, sc Script, log *Log, next int) {
 	statedb.VerifSetHook(s.hook)
 	defer statedb.VerifSetHook(nil)
 	st.db.Start()
+	if s.gc != nil {
+		// identify the collector goroutine up front so that every hook it hits is attributed to it
+		for i := 0; i < 1000 && s.gcGid == 0; i++ {
+			for gid, gi := range goroutines() {
+				if strings.Contains(gi.stack, "statedb.graveyardWorker") {
+					s.gcGid = gid
+					s.gc.gid = gid
+					s.byGid[gid] = s.gc
+				}
+			}
+			if s.gcGid == 0 {
+				time.Sleep(100 * time.Microsecond)
+			}
+		}
+	}
 	log.Begin()
 	log.Emit(Ev{"op": "nop", "what": "sched"})
 	fail := func(during, msg string) {
@@ -564,6 +599,7 @@ func runSchedScript(t *testing.T, sc Script, log *Log, next int) {
 		// wait for a pending collection (triggered during setup) to arrive at its first gate or go idle
 		time.Sleep(5 * time.Millisecond)
 		s.settle(&schedActor{state: aDone})
+		s.noteGCScan()
 	}
 	bad := false
 	for _, name := range cfg.Schedule {
